@@ -54,6 +54,7 @@ type fop struct {
 	Denoms []string `json:"denoms,omitempty"` // create/adjust: reward denoms
 	Rates  []string `json:"rates,omitempty"`  // create: reward per block; adjust: new rate ("" = unchanged)
 	Totals []string `json:"totals,omitempty"` // create: budget; adjust: top-up ("" = none)
+	Rev    bool     `json:"rev,omitempty"`    // adjust: send the coin lists in descending denom order (VERIF_C05_UNSORTED)
 }
 
 type machine struct {
@@ -69,7 +70,7 @@ type machine struct {
 
 	target int // generator only: pool the next operation must aim at (-1 none)
 
-	avoidF4, avoidF14, strict bool
+	avoidF4, avoidF14, strict, unsorted bool
 
 	cls          map[string]int
 	nEpilogue    int
@@ -88,6 +89,7 @@ func newMachine(prop string) *machine {
 	m.avoidF4 = os.Getenv("VERIF_C05_AVOID_F4") != ""
 	m.avoidF14 = os.Getenv("VERIF_C05_AVOID_F14") != ""
 	m.strict = os.Getenv("VERIF_C05_STRICT") != ""
+	m.unsorted = os.Getenv("VERIF_C05_UNSORTED") != ""
 	m.prelude()
 	return m
 }
@@ -473,16 +475,38 @@ func (m *machine) applyStake(o fop) error {
 	return m.checkDelta("stake", before, e)
 }
 
-func (m *machine) unstakeFailSig(res chain.Result) string {
-	s := ""
-	if res.Err != nil {
-		s = res.Err.Error()
+// unstakeFailSig names a failed withdrawal after the escrow that is short (read from the state the withdrawal
+// was attempted on): the pool's recorded budget cannot cover the release due since the last distribution, or the
+// reward collector holds less than the farmer's accrued reward.
+func (m *machine) unstakeFailSig(c *chain.Case, p *mpool, who int) string {
+	h := c.Height()
+	stored, ok := c.E.K.Farm.GetPool(c.Ctx, p.id)
+	if !ok {
+		return "C05/unstake-failed"
 	}
-	switch {
-	case strings.Contains(s, "remaining reward of the pool"):
-		return "C05/unstake-failed-budget-short"
-	case strings.Contains(s, "insufficient funds"):
-		return "C05/unstake-failed-collector-short"
+	rules := c.E.K.Farm.GetRewardRules(c.Ctx, p.id)
+	resp, err := c.E.K.Farm.FarmPool(context.Context(c.Ctx), &farmtypes.QueryFarmPoolRequest{Id: p.id})
+	live := err == nil && !resp.Pool.Expired
+	virt := map[string]*big.Int{}
+	if live && stored.TotalLptLocked.Amount.IsPositive() && h > stored.LastHeightDistrRewards {
+		for _, r := range rules {
+			need := new(big.Int).Mul(r.RewardPerBlock.BigInt(), bi(h-stored.LastHeightDistrRewards))
+			if r.RemainingReward.BigInt().Cmp(need) < 0 {
+				return "C05/unstake-failed-budget-short"
+			}
+			virt[r.Reward] = need
+		}
+	}
+	if _, pend, err := m.farmerQuery(c, who, p); err == nil {
+		for _, co := range pend {
+			have := c.Balance(collectorAddr, co.Denom).BigInt()
+			if v, ok := virt[co.Denom]; ok {
+				have.Add(have, v)
+			}
+			if have.Cmp(co.Amount.BigInt()) < 0 {
+				return "C05/unstake-failed-collector-short"
+			}
+		}
 	}
 	return "C05/unstake-failed"
 }
@@ -525,7 +549,7 @@ func (m *machine) applyUnstake(o fop) error {
 	}
 	if res.Outcome != chain.OK {
 		if m.prop == "C05" {
-			return pbt.Failf(m.unstakeFailSig(res), "h=%d farmer %d cannot withdraw %s of recorded stake %s from %s (end %d): %v",
+			return pbt.Failf(m.unstakeFailSig(m.c, p, o.Who), "h=%d farmer %d cannot withdraw %s of recorded stake %s from %s (end %d): %v",
 				h, o.Who, amt, f.stake, p.id, p.end, res)
 		}
 		return m.soft("unstake", res)
@@ -662,8 +686,18 @@ func (m *machine) applyAdjust(o fop) error {
 	}
 	sort.Slice(rpb, func(i, j int) bool { return rpb[i].Denom < rpb[j].Denom })
 	sort.Slice(add, func(i, j int) bool { return add[i].Denom < add[j].Denom })
+	unsortedTopup := false
+	if o.Rev {
+		// ValidateBasic sorts a copy before validating, so lists in descending order reach the keeper
+		sort.Slice(rpb, func(i, j int) bool { return rpb[i].Denom > rpb[j].Denom })
+		sort.Slice(add, func(i, j int) bool { return add[i].Denom > add[j].Denom })
+		unsortedTopup = len(add) > 1
+		if len(rpb) > 1 || len(add) > 1 {
+			m.class("adjust-unsorted-coins")
+		}
+	}
 	mustReject := p == nil || o.Who != p.creator || !p.editable || p.expired(h)
-	mayReject := false
+	mayReject := unsortedTopup // the bank refuses unsorted coins
 	if p != nil {
 		for d := range newRate {
 			if p.rule(d) == nil {
@@ -750,6 +784,15 @@ func (m *machine) applyAdjust(o fop) error {
 	oldEnd := p.end
 	if end, ok := endFor(base, av, rt); ok {
 		p.end = end
+	}
+	if m.prop == "C06" && o.Rev && len(rpb) > 1 {
+		if resp, err := m.c.E.K.Farm.FarmPool(context.Context(m.c.Ctx), &farmtypes.QueryFarmPoolRequest{Id: p.id}); err == nil {
+			for _, r := range p.rules {
+				if g := resp.Pool.RewardPerBlock.AmountOf(r.denom).BigInt(); g.Cmp(r.rate) != 0 {
+					return pbt.Failf("C06/adjust-unsorted-coins", "h=%d adjust of pool %s with rates %s (descending denom order) accepted, but %s's rate is %s, requested %s", h, p.id, rpb, r.denom, g, r.rate)
+				}
+			}
+		}
 	}
 	if m.prop == "C06" {
 		if resp, err := m.c.E.K.Farm.FarmPool(context.Context(m.c.Ctx), &farmtypes.QueryFarmPoolRequest{Id: p.id}); err == nil && resp.Pool.EndHeight != p.end {
@@ -1154,7 +1197,7 @@ func (m *machine) epilogue(seed int) error {
 		before := b.Balance(u.Addr, it.p.lpt).BigInt()
 		res := b.Deliver(&farmtypes.MsgUnstake{PoolId: it.p.id, Amount: coin(it.p.lpt, f.stake), Sender: u.Addr.String()})
 		if res.Outcome != chain.OK {
-			sig := m.unstakeFailSig(res)
+			sig := m.unstakeFailSig(b, it.p, it.k)
 			if res.Outcome == chain.Panicked {
 				sig = "C05/unstake-panicked"
 			}
